@@ -300,15 +300,15 @@ theorem add_failures_antitone (ss : List Status) (hk : ∀ s ∈ ss, s.kind = .f
       (add_failure_antitone r s (hk s (List.mem_cons_self ..)))
 
 /-- Legacy fallback: not Invalid exactly when every listed code is the tolerated
-`signingCredential.untrusted`; Trusted only when trust was verified. -/
+`signingCredential.untrusted`. -/
 theorem legacy_not_invalid_iff (vt : Bool) (st : Option (List Code)) :
     legacyState vt st ≠ .invalid ↔ ∀ l, st = some l → ∀ c ∈ l, c = cUntrusted := by
-  unfold legacyState
   cases st with
-  | none => cases vt <;> simp
+  | none => cases vt <;> simp [legacyState]
   | some l =>
+    simp only [legacyState, Option.some.injEq, forall_eq']
     by_cases h : l.any (· != cUntrusted) = true
-    · simp only [h, if_true, ne_eq, not_true_eq_false, Option.some.injEq, forall_eq', false_iff]
+    · simp only [h, if_true, ne_eq, not_true_eq_false, false_iff]
       intro hall
       obtain ⟨c, hc, hne⟩ := List.any_eq_true.1 h
       simp [hall c hc] at hne
@@ -317,18 +317,211 @@ theorem legacy_not_invalid_iff (vt : Bool) (st : Option (List Code)) :
         apply Decidable.byContradiction
         intro hne
         exact h (List.any_eq_true.2 ⟨c, hc, by simpa using hne⟩)
-      have hf : (l.any fun x => x != cUntrusted) = false := by simpa using h
-      show (if (l.any fun x => x != cUntrusted) = true then State.invalid
-        else if vt = true then State.trusted else State.valid) ≠ State.invalid ↔ _
-      rw [hf]
-      cases vt <;> simp <;> exact hall
+      simp only [h]
+      constructor
+      · intro _; exact hall
+      · intro _; simp only [Bool.false_eq_true, if_false]; split <;> simp
+
+/-- **Legacy fallback, Trusted clause at full strength**: Trusted exactly when trust was verified
+and the old report lists no failure at all (no list, or an empty list). In particular a listed
+`signingCredential.untrusted` — tolerated for Valid — never gives Trusted. (True of the repaired
+code only: the unchanged tree returned Trusted for `[signingCredential.untrusted]` with
+`verify_trust = true`; fixes/C04-legacy-untrusted-not-trusted.patch.) -/
+theorem legacy_trusted_iff (vt : Bool) (st : Option (List Code)) :
+    legacyState vt st = .trusted ↔ vt = true ∧ (st = none ∨ st = some []) := by
+  cases st with
+  | none => cases vt <;> simp [legacyState]
+  | some l =>
+    cases l with
+    | nil => cases vt <;> simp [legacyState]
+    | cons x xs =>
+      simp only [legacyState, List.isEmpty_cons, Bool.and_false]
+      split <;> simp
 
 theorem legacy_trusted_needs_trust (st : Option (List Code)) :
     legacyState false st ≠ .trusted := by
-  unfold legacyState
-  cases st with
-  | none => simp
-  | some l => by_cases h : l.any (· != cUntrusted) = true <;> simp [h]
+  intro h; have := (legacy_trusted_iff false st).1 h; simp at this
+
+/-- Legacy fallback, Valid clause: Valid exactly when not Invalid and not Trusted. -/
+theorem legacy_valid_iff (vt : Bool) (st : Option (List Code)) :
+    legacyState vt st = .valid ↔
+      (∀ l, st = some l → ∀ c ∈ l, c = cUntrusted) ∧ ¬ (vt = true ∧ (st = none ∨ st = some [])) := by
+  rw [← legacy_not_invalid_iff vt st, ← legacy_trusted_iff]
+  cases legacyState vt st <;> simp
+
+/-- the former hole, now closed: an untrusted credential in the legacy list gives Valid, not Trusted -/
+example : legacyState true (some [cUntrusted]) = .valid := by decide
+example : legacyState true (some []) = .trusted ∧ legacyState true none = .trusted := by decide
+example : legacyState false (some [cUntrusted, cUntrusted]) = .valid := by decide
+
+/-! ### Inert additions: informational codes anywhere, and success codes in ingredient deltas,
+never change the state -/
+
+/-- the failure lists of the ingredient deltas, in order -/
+def failLists (r : Results) : List (List Code) := (deltasOf r).map (·.codes.failure)
+
+theorem validCond_iff_fl (r : Results) :
+    ValidCond r ↔ ∃ a, r.active = some a ∧ cSigValidated ∈ a.success ∧ cInsideValidity ∈ a.success ∧
+      (∀ f ∈ a.failure, tolerated f = true) ∧ ∀ l ∈ failLists r, ∀ f ∈ l, tolerated f = true := by
+  unfold ValidCond failLists
+  simp only [List.forall_mem_map]
+
+theorem trustedCond_iff_fl (r : Results) :
+    TrustedCond r ↔ ∃ a, r.active = some a ∧ cSigValidated ∈ a.success ∧ cInsideValidity ∈ a.success ∧
+      cTrusted ∈ a.success ∧ a.failure = [] ∧ ∀ l ∈ failLists r, l = [] := by
+  unfold TrustedCond failLists
+  simp only [List.forall_mem_map]
+
+/-- the state is a function of the two conditions -/
+theorem state_eq_of_conds (r r' : Results) (hv : ValidCond r' ↔ ValidCond r)
+    (ht : TrustedCond r' ↔ TrustedCond r) : state r' = state r := by
+  rw [← state_not_invalid_iff, ← state_not_invalid_iff] at hv
+  rw [← state_trusted_iff, ← state_trusted_iff] at ht
+  cases h' : state r' <;> cases h : state r <;> simp [h', h] at hv ht ⊢
+
+/-- same active manifest, same delta failure lists up to one appended empty list ⇒ same state -/
+theorem state_eq_of_failLists (r r' : Results) (ha : r'.active = r.active)
+    (hd : failLists r' = failLists r ∨ failLists r' = failLists r ++ [[]]) : state r' = state r := by
+  apply state_eq_of_conds
+  · rw [validCond_iff_fl, validCond_iff_fl, ha]
+    rcases hd with hd | hd <;> rw [hd]
+    simp only [List.mem_append, List.mem_singleton, or_imp, forall_and, forall_eq,
+      List.not_mem_nil, false_imp_iff, implies_true, and_true]
+  · rw [trustedCond_iff_fl, trustedCond_iff_fl, ha]
+    rcases hd with hd | hd <;> rw [hd]
+    simp only [List.mem_append, List.mem_singleton, or_imp, forall_and, forall_eq, and_true]
+
+/-- replacing the active manifest's codes by codes with the same decisive success codes and the
+same failures leaves the state unchanged (an absent active manifest counts as empty codes) -/
+theorem state_eq_of_active (r : Results) (a' : Codes)
+    (h1 : cSigValidated ∈ a'.success ↔ cSigValidated ∈ (r.active.getD {}).success)
+    (h2 : cInsideValidity ∈ a'.success ↔ cInsideValidity ∈ (r.active.getD {}).success)
+    (h3 : cTrusted ∈ a'.success ↔ cTrusted ∈ (r.active.getD {}).success)
+    (hf : a'.failure = (r.active.getD {}).failure) :
+    state { r with active := some a' } = state r := by
+  apply state_eq_of_conds
+  · unfold ValidCond
+    cases hr : r.active with
+    | none =>
+      rw [hr] at h1
+      simp only [Option.some.injEq, exists_eq_left', deltasOf]
+      simp at h1
+      simp [h1]
+    | some a =>
+      rw [hr] at h1 h2 hf
+      simp only [Option.getD_some] at h1 h2 hf
+      simp only [Option.some.injEq, exists_eq_left', deltasOf, h1, h2, hf]
+  · unfold TrustedCond
+    cases hr : r.active with
+    | none =>
+      rw [hr] at h1
+      simp only [Option.some.injEq, exists_eq_left', deltasOf]
+      simp at h1
+      simp [h1]
+    | some a =>
+      rw [hr] at h1 h2 h3 hf
+      simp only [Option.getD_some] at h1 h2 h3 hf
+      simp only [Option.some.injEq, exists_eq_left', deltasOf, h1, h2, h3, hf]
+
+theorem add_nonfailure_failure (c : Codes) (s : Status) (hk : s.kind ≠ .failure) :
+    (c.add s).failure = c.failure := by
+  unfold Codes.add
+  cases h : s.kind <;> simp_all
+
+theorem add_informational_success (c : Codes) (s : Status) (hk : s.kind = .informational) :
+    (c.add s).success = c.success := by
+  unfold Codes.add; rw [hk]
+
+theorem addToFirst_nonfailure (u : List Char) (s : Status) (hk : s.kind ≠ .failure) :
+    ∀ (ds ds' : List Delta), addToFirst u s ds = some ds' →
+      ds'.map (·.codes.failure) = ds.map (·.codes.failure) := by
+  intro ds
+  induction ds with
+  | nil => intro ds' h; simp [addToFirst] at h
+  | cons d ds ih =>
+    intro ds' h
+    unfold addToFirst at h
+    by_cases hu : (d.uri == u) = true
+    · simp only [hu, if_true, Option.some.injEq] at h
+      subst h
+      simp [add_nonfailure_failure d.codes s hk]
+    · cases hrec : addToFirst u s ds with
+      | none => simp [hu, hrec] at h
+      | some ds'' =>
+        simp [hu, hrec] at h
+        subst h
+        simp [ih ds'' hrec]
+
+/-- **A success or informational status placed in an ingredient delta (existing or new) is
+inert**: e.g. an ingredient's `signingCredential.trusted` or `claimSignature.validated` never
+raises (or lowers) the state of the store. -/
+theorem add_delta_nonfailure_inert (r : Results) (s : Status) (u : List Char)
+    (hk : s.kind ≠ .failure) (hu : s.uri = some u) : state (addStatus r s) = state r := by
+  cases hadd : addToFirst u s (deltasOf r) with
+  | some ds' =>
+    have hr' : addStatus r s = { r with deltas := some ds' } := by
+      unfold addStatus; rw [hu]; simp only [hadd]
+    rw [hr']
+    refine state_eq_of_failLists r _ rfl ?_
+    left
+    simpa [failLists, deltasOf] using addToFirst_nonfailure u s hk _ _ hadd
+  | none =>
+    have hr' : addStatus r s =
+        { r with deltas := some (deltasOf r ++ [{ uri := u, codes := ({} : Codes).add s }]) } := by
+      unfold addStatus; rw [hu]; simp only [hadd]
+    rw [hr']
+    refine state_eq_of_failLists r _ rfl ?_
+    right
+    simp [failLists, deltasOf, add_nonfailure_failure ({} : Codes) s hk]
+
+theorem delta_success_inert (r : Results) (s : Status) (u : List Char)
+    (hk : s.kind = .success) (hu : s.uri = some u) : state (addStatus r s) = state r :=
+  add_delta_nonfailure_inert r s u (by rw [hk]; decide) hu
+
+/-- **An informational status is inert wherever it is placed** (active manifest, existing or new
+delta) and whatever its code — e.g. `cawg.ica.untrusted_issuer`, or a failure-looking code logged
+as informational. -/
+theorem add_informational_inert (r : Results) (s : Status) (hk : s.kind = .informational) :
+    state (addStatus r s) = state r := by
+  cases hu : s.uri with
+  | some u => exact add_delta_nonfailure_inert r s u (by rw [hk]; decide) hu
+  | none =>
+    have hr' : addStatus r s = { r with active := some ((r.active.getD {}).add s) } := by
+      unfold addStatus; rw [hu]
+    rw [hr']
+    have hs := add_informational_success (r.active.getD {}) s hk
+    exact state_eq_of_active r _ (by rw [hs]) (by rw [hs]) (by rw [hs])
+      (add_nonfailure_failure _ s (by rw [hk]; decide))
+
+/-- **A success status of the active manifest other than the three decisive codes is inert.** -/
+theorem add_other_success_inert (r : Results) (s : Status) (hk : s.kind = .success)
+    (hu : s.uri = none) (h1 : s.code ≠ cSigValidated) (h2 : s.code ≠ cInsideValidity)
+    (h3 : s.code ≠ cTrusted) : state (addStatus r s) = state r := by
+  have hr' : addStatus r s = { r with active := some ((r.active.getD {}).add s) } := by
+    unfold addStatus; rw [hu]
+  rw [hr']
+  have hs : ((r.active.getD {}).add s).success = (r.active.getD {}).success ++ [s.code] := by
+    unfold Codes.add; rw [hk]
+  refine state_eq_of_active r _ ?_ ?_ ?_ (add_nonfailure_failure _ s (by rw [hk]; decide))
+  · rw [hs]; simp [Ne.symm h1]
+  · rw [hs]; simp [Ne.symm h2]
+  · rw [hs]; simp [Ne.symm h3]
+
+/-- history form: any sequence of informational statuses and delta successes is inert -/
+theorem add_inert_sequence (ss : List Status)
+    (h : ∀ s ∈ ss, s.kind = .informational ∨ (s.kind = .success ∧ s.uri ≠ none)) :
+    ∀ r : Results, state (ss.foldl addStatus r) = state r := by
+  induction ss with
+  | nil => intro r; rfl
+  | cons s ss ih =>
+    intro r
+    simp only [List.foldl_cons]
+    rw [ih (fun x hx => h x (List.mem_cons_of_mem _ hx))]
+    rcases h s (List.mem_cons_self ..) with hk | ⟨hk, hu⟩
+    · exact add_informational_inert r s hk
+    · cases hu' : s.uri with
+      | none => exact absurd hu' hu
+      | some u => exact delta_success_inert r s u hk hu'
 
 /-! ### Non-vacuity: concrete results meeting each condition -/
 
@@ -342,5 +535,11 @@ example : state exTrusted = .trusted := by decide
 example : state exValid = .valid := by decide
 example : state (addStatus exValid { code := "assertion.dataHash.mismatch".toList, kind := .failure, uri := some "u".toList }) = .invalid := by decide
 example : tolerated "cawg.x509".toList = false ∧ tolerated "cawg.identity.pad.invalid".toList = false := by decide
+-- the inert theorems have instances that matter: a would-be-decisive success in a delta, and a
+-- failure-looking informational code in the active manifest
+example : state (addStatus exValid { code := cTrusted, kind := .success, uri := some "u".toList }) = .valid := by decide
+example : state (addStatus exTrusted { code := "cawg.ica.untrusted_issuer".toList, kind := .informational, uri := none }) = .trusted := by decide
+-- ... while the same codes placed as active success / failure do change the state
+example : state (addStatus exTrusted { code := "cawg.ica.untrusted_issuer".toList, kind := .failure, uri := none }) = .invalid := by decide
 
 end C2pa.C04
